@@ -254,10 +254,19 @@ def run_job(job):
             for canonical in (True, False):
                 f = mv.asfullmv(canonical=canonical)
                 ev['full'].append([canonical, [int(k) for k in f.keys()], [_tag(v) for v in f.values()]])
-            mp = mv.map(lambda v: _wrap('symbol' if vtype == 'str' else vtype, 3 * _tag(v) + 1))    # (strings are only sympified by the constructor)
+            # map / filter accept a function of the value, or of (key, value): the second form must be handed the key OF that value
+            key_of = {_tag(v): int(k) for k, v in mv.items()}
+            mt = 'symbol' if vtype == 'str' else vtype          # (strings are only sympified by the constructor)
+            if rng.random() < 0.5:
+                mp = mv.map(lambda v: _wrap(mt, 3 * _tag(v) + 1))
+            else:
+                mp = mv.map(lambda k, v: _wrap(mt, 3 * _tag(v) + 1 if key_of.get(_tag(v)) == int(k) else 999983))
             ev['mapped'] = {'keys': [int(k) for k in mp.keys()], 'coefs': [_tag(v) for v in mp.values()]}
             t = rng.choice([-50, 0, 10, 40])
-            fl = mv.filter(lambda v: _tag(v) > t)
+            if rng.random() < 0.5:
+                fl = mv.filter(lambda v: _tag(v) > t)
+            else:
+                fl = mv.filter(lambda k, v: _tag(v) > t and key_of.get(_tag(v)) == int(k))
             ev['filtered'] = [t, [int(k) for k in fl.keys()], [_tag(v) for v in fl.values()]]
         except Exception as e:   # noqa: BLE001
             ev['raised'] = 'accessor:' + type(e).__name__
